@@ -367,14 +367,16 @@ def run(F, R, tier):
     R.ob("C13-c", "provided-info arm found", len(pend) == 1, "no PendingInfoResponse::Module under `Ok(None)`", ls["file"])
     # the shortcut is only taken for module loads (the parsing path records an
     # asset import as an external entry and never follows its imports)
-    sc = [n for n in ls["_nodes"] if n["k"] == "If" and n["cond"].get("k") == "Let" and any(callee_matches(x, ["JsrPackageVersionInfo::module_info"]) for x in walk(n["cond"]["init"]))]
-    if R.ob("C13-c", "manifest shortcut branch found", len(sc) == 1, "shape changed", ls["file"]):
-        init = sc[0]["cond"]["init"]
-        gated = any(x.get("k") == "MethodCall" and x["name"] in ("then", "then_some") and peel(x["recv"]).get("k") == "Unary" and peel(x["recv"])["op"] == "!" and expr_text(peel(x["recv"])["e"]).endswith("is_asset") for x in walk(init))
-        g = guards_at(F, sc[0])
-        gated = gated or any(x.kind == "cond" and not x.pol and peel(x.node).get("field") == "is_asset" for x in g)
-        R.ob("C13-c", "embedded module info is only used for module (non-asset) loads", gated,
-             "the manifest shortcut is taken for asset imports too: a file imported as text/bytes would become a full module with its imports followed, unlike the parsing path", where(sc[0]))
+    sc = [n for n in ls["_nodes"] if callee_matches(n, ["JsrPackageVersionInfo::module_info"])]
+    if R.ob("C13-c", "manifest shortcut branch found", len(sc) >= 1, "load_jsr_subpath no longer consults the manifest's embedded module info", ls["file"]):
+        for c in sc:
+            g = guards_at(F, c)
+            gated = any(x.kind == "cond" and not x.pol and field_of(x.node) == "is_asset" for x in g)
+            for a in k_ancestors(c):
+                if a.get("k") == "MethodCall" and a["name"] in ("then", "then_some") and peel(a["recv"]).get("k") == "Unary" and peel(a["recv"])["op"] == "!" and field_of(peel(a["recv"])["e"]) == "is_asset":
+                    gated = True
+            R.ob("C13-c", "embedded module info is only used for module (non-asset) loads", gated,
+                 "the manifest shortcut is taken for asset imports too: a file imported as text/bytes would become a full module with its imports followed, unlike the parsing path", where(c))
     hc = F.body("graph::Builder::handle_jsr_registry_pending_content_loads")
     src = [n for n in hc["_nodes"] if n["k"] == "Assign" and field_of(n["l"]) == "source"]
     R.ob("C13-c", "the deferred load fills in the source of Js / Json / Wasm modules", len(src) >= 3, "only %d `module.source = ..` assignments" % len(src), hc["file"])
